@@ -31,7 +31,7 @@ def n_databases(ctx, quick, thorough):
     return thorough if ctx.thorough() else quick
 
 
-def build_databases(ctx, scratch, n, page_sizes=None, small=None, tag="db"):
+def build_databases(ctx, scratch, n, page_sizes=None, small=None, tag="db", force=None):
     """yield Built databases from the factory; the configuration grid cycles through page sizes,
     encodings and auto-vacuum modes so that every combination is visited early"""
     r = ctx.rng
@@ -45,6 +45,8 @@ def build_databases(ctx, scratch, n, page_sizes=None, small=None, tag="db"):
         cfg = F.random_cfg(r, page_sizes=page_sizes, small=(small if small is not None else not ctx.thorough()))
         ps, enc, av = grid[i % len(grid)]
         cfg.update(page_size=ps, encoding=enc, auto_vacuum=av)
+        for k, fn in (force or {}).items():
+            cfg[k] = fn(i)
         if ps >= 16384:
             cfg["rows"] = min(cfg["rows"], 40)
         path = scratch.path(f"{tag}{i}.db")
